@@ -24,6 +24,12 @@ Oracle (causal, from the wire): a call's Deferred fires exactly once;
   * otherwise it fires during the caller's connectionLost with that very reason;
   * calls made after connectionLost return an already-failed Deferred (the loss reason) and write
     nothing; requiresAnswer=False returns None;
+  * application-supplied responder Deferreds also come already `.called` but chained to an unfired
+    Deferred, and fired-and-pause()d (resolved later by the scheduler): same expectations as "later";
+    responders may call the peer back before answering; undeclared errors may be BaseException-only;
+    result callbacks may close the connection or raise (AMP then drops the connection - what follows
+    is judged only through the wire); an armed peer calls callRemote from its own connectionLost
+    after upcalling (must fail at once);
   * re-entrant follow-ups: about a third of the calls carry a user callback/errback that issues one
     more callRemote from wherever the Deferred fires (inside an answer delivery, inside
     connectionLost handling while other pending calls are still being failed, or inside callRemote
@@ -57,12 +63,15 @@ SHARDS = {"quick": 4, "thorough": 16}
 FLOORS = {"sessions": 500, "calls": 3000, "deferreds_checked": 2500, "fired_by_answer": 800, "fired_by_connection_loss": 300,
           "fired_declared_error": 100, "fired_unknown_remote_error": 100, "calls_after_loss": 300, "responder_runs": 1500,
           "deferred_responders_fired": 200, "boundary_runs": 1500, "quit_closes": 100, "calls_with_3_outstanding": 100,
-          "errors_from_declared_subclass": 100, "errors_from_command_without_declared_errors": 100,
+          "responder_deferred_called_but_chained": 100, "responder_deferred_fired_and_paused": 100, "calls_from_responder": 100,
+          "calls_from_connectionlost": 100, "callbacks_that_close": 50, "callbacks_that_raise": 50, "errors_from_declared_subclass": 100, "errors_from_command_without_declared_errors": 100,
           "followups_during_connection_loss": 200, "followups_during_answer_delivery": 200, "followups_inside_callremote": 50}
 READY = True
 
-MODES = ("now", "later", "declared", "undeclared", "never", "fatal", "declared-sub", "fatal-sub")
-HOWS = ("value", "declared", "undeclared", "fatal", "declared-sub", "fatal-sub")
+MODES = ("now", "later", "declared", "undeclared", "never", "fatal", "declared-sub", "fatal-sub",
+         "chained", "paused", "now+call", "undeclared-base")
+HOWS = ("value", "declared", "undeclared", "fatal", "declared-sub", "fatal-sub", "undeclared-base")
+FOLLOW_CLOSE, FOLLOW_RAISE = 99, 98  # follow codes: the result callback closes the connection / raises
 COMMANDS = ("Tell", "Ask", "Plain")  # label field `ra`: 0 = requiresAnswer False, 1 = errors declared, 2 = no errors declared
 
 
@@ -86,7 +95,11 @@ class FatalSub(FatalError):
     """Subclass of a declared fatal error."""
 
 
-EXC = {"declared": DeclaredError, "undeclared": Undeclared, "fatal": FatalError, "declared-sub": DeclaredSub, "fatal-sub": FatalSub}
+class UndeclaredBase(BaseException):
+    """An undeclared responder error that is not an Exception subclass."""
+
+
+EXC = {"undeclared-base": UndeclaredBase, "declared": DeclaredError, "undeclared": Undeclared, "fatal": FatalError, "declared-sub": DeclaredSub, "fatal-sub": FatalSub}
 
 
 def wire_outcome(command, outcome):
@@ -94,7 +107,7 @@ def wire_outcome(command, outcome):
     if outcome in EXC:
         if command == b"Plain":  # declares nothing: every exception is undeclared
             return "undeclared"
-        return outcome.replace("-sub", "")
+        return "undeclared" if outcome == "undeclared-base" else outcome.replace("-sub", "")
     return outcome
 
 
@@ -176,6 +189,8 @@ def classes():
             s.lost_reason[self.name] = reason
             try:
                 amp.AMP.connectionLost(self, reason)
+                if self.name in s.lostcall_armed:  # application code calling from its connectionLost, after the upcall
+                    s.do_call(self.name, 0, 1, 0, origin="connectionLost")
             finally:
                 s.pop()
 
@@ -204,6 +219,7 @@ class Session:
         self.responders = {}  # nonce -> dict(side, runs, outcome, window, after_lost)
         self.pending = {"a": [], "b": []}  # responder Deferreds waiting for the scheduler: (nonce, d)
         self.lost_reason = {}
+        self.lostcall_armed = set()
         self.delivered_boxes = {"a": [], "b": []}  # (box, window id)
         self.written_boxes = {"a": [], "b": []}
         self.errors = []  # harness-visible exceptions from protocol entry points
@@ -256,9 +272,34 @@ class Session:
         if m in EXC:
             r["outcome"] = m
             raise EXC[m]("%s %d" % (m, nonce))
+        if m == "now+call":  # the responder itself calls the peer back before answering
+            self.do_call(side, 0, 1, 0, origin="responder")
+            r["outcome"] = "value"
+            return {"nonce": nonce}
         d = Deferred()
         if m == "later":
             self.pending[side].append((nonce, d))
+        elif m == "chained":
+            # application Deferred that is already .called but whose chain waits on an unfired one
+            from twisted.internet.defer import succeed
+            outer = succeed(None)
+            outer.addCallback(lambda _ignored, d=d: d)
+            self.pending[side].append((nonce, d))
+            r["shape"] = "called-but-chained"
+            return outer
+        elif m == "paused":
+            # application Deferred that is already fired and pause()d; unpaused by the scheduler
+            slot = {}
+
+            def resolve(_ignored, slot=slot, nonce=nonce):
+                if slot["how"] == "value":
+                    return {"nonce": nonce}
+                raise EXC[slot["how"]]("%s %d" % (slot["how"], nonce))
+            d.callback(None)
+            d.pause()
+            d.addCallback(resolve)
+            self.pending[side].append((nonce, ("paused", d, slot)))
+            r["shape"] = "fired-and-paused"
         else:
             r["outcome"] = "never"
             self.pending.setdefault("never", []).append(d)
@@ -291,6 +332,8 @@ class Session:
         op = label[0]
         if op == "budget":
             self.budget = label[1]
+        elif op == "arm-lostcall":
+            self.lostcall_armed.add(label[1])
         elif op == "call":
             self.do_call(label[1], label[2], label[3], label[4] if len(label) > 4 else 0)
         elif op == "deliver":
@@ -308,7 +351,7 @@ class Session:
             self.do_pump()
         self.sniff_tx()
 
-    def do_call(self, name, mode, ra, follow=0, parent=None):
+    def do_call(self, name, mode, ra, follow=0, parent=None, origin=None):
         """follow = m+1: the user callback/errback of this call re-entrantly issues one follow-up
         callRemote (responder mode m, no further follow-up) from wherever the Deferred fires:
         during an answer delivery, during connectionLost handling, or inside callRemote itself."""
@@ -322,7 +365,7 @@ class Session:
         outstanding = sum(1 for c in self.calls.values() if c["side"] == name and c["ra"] and not c["fired"])
         issued_in = self.now()
         rec = {"side": name, "mode": MODES[mode], "ra": ra, "after_loss": was_lost, "fired": [], "returned": None, "wrote": 0,
-               "outstanding_before": outstanding, "command": COMMANDS[ra], "follow": follow, "parent": parent, "issued_in": issued_in[0] if issued_in else None}
+               "outstanding_before": outstanding, "command": COMMANDS[ra], "origin": origin, "follow": follow, "parent": parent, "issued_in": issued_in[0] if issued_in else None}
         self.calls[nonce] = rec
         self.push(("call", name, nonce))
         try:
@@ -336,7 +379,13 @@ class Session:
                 def fired(result, kind):
                     rec["fired"].append((kind, dict(result) if kind == "ok" else result, self.now()))
                     if rec["follow"] and len(rec["fired"]) == 1:
-                        self.do_call(name, rec["follow"] - 1, 1, 0, parent=nonce)  # re-entrant follow-up
+                        if rec["follow"] == FOLLOW_CLOSE:
+                            if peer.transport is not None:
+                                peer.transport.loseConnection()
+                        elif rec["follow"] == FOLLOW_RAISE:
+                            raise RuntimeError("user callback of call %d raises" % nonce)
+                        else:
+                            self.do_call(name, rec["follow"] - 1, 1, 0, parent=nonce, origin="callback")  # re-entrant follow-up
                     return None
                 d.addCallbacks(fired, fired, callbackArgs=("ok",), errbackArgs=("err",))
             rec["fired_on_return"] = len(rec["fired"])
@@ -390,7 +439,10 @@ class Session:
         r["fired_after_lost"] = bool(self.side(name).lost)
         self.push(("fire", name, nonce))
         try:
-            if how == "value":
+            if isinstance(d, tuple):
+                d[2]["how"] = how
+                self.guarded(d[1].unpause)
+            elif how == "value":
                 self.guarded(d.callback, {"nonce": nonce})
             else:
                 self.guarded(d.errback, Failure(EXC[how]("%s %d" % (how, nonce))))
@@ -524,6 +576,10 @@ class Session:
         for nonce, c in sorted(self.calls.items()):
             n = c["side"]
             ctx.count("calls")
+            if c["origin"] in ("responder", "connectionLost"):
+                ctx.count("calls_from_" + c["origin"].lower())
+            if c["follow"] in (FOLLOW_CLOSE, FOLLOW_RAISE) and c["fired"]:
+                ctx.count("callbacks_that_close" if c["follow"] == FOLLOW_CLOSE else "callbacks_that_raise")
             if c["parent"] is not None:
                 ctx.count({"lost": "followups_during_connection_loss", "deliver": "followups_during_answer_delivery"}.get(c["issued_in"], "followups_inside_callremote"))
             if c["after_loss"]:
@@ -616,15 +672,15 @@ def choose(rng, s):
         if x <= 0:
             break
     if a == "call":
-        mode = rng.choice([0, 0, 0, 0, 1, 1, 1, 1, 1, 2, 2, 6, 6, 4, 4, 3, 5, 7]) if rng.random() < 0.93 else rng.randrange(len(MODES))
+        mode = rng.choice([0, 0, 0, 0, 1, 1, 1, 8, 8, 9, 9, 10, 2, 2, 6, 6, 4, 4, 3, 5, 7, 11]) if rng.random() < 0.93 else rng.randrange(len(MODES))
         x = rng.random()
         ra = 0 if x < 0.13 else 2 if x < 0.33 else 1
-        follow = rng.randint(1, len(MODES)) if ra and rng.random() < 0.3 else 0
+        follow = (rng.choice([FOLLOW_CLOSE, FOLLOW_RAISE]) if rng.random() < 0.15 else rng.randint(1, len(MODES))) if ra and rng.random() < 0.3 else 0
         return ("call", rng.choice("ab"), mode, ra, follow)
     if a.startswith("deliver"):
         return ("deliver", a[-1], rng.choice(["1", "half", "all", "all"]))
     if a.startswith("fire"):
-        return ("fire", a[-1], rng.randrange(8), rng.choice(["value", "value", "value", "value", "declared", "declared-sub", "declared-sub", "undeclared", "fatal", "fatal-sub"]))
+        return ("fire", a[-1], rng.randrange(8), rng.choice(["value", "value", "value", "value", "declared", "declared-sub", "declared-sub", "undeclared", "undeclared-base", "fatal", "fatal-sub"]))
     if a.startswith("complete-close"):
         return ("complete-close", a[-1])
     return (a, rng.choice("ab"))
@@ -632,9 +688,9 @@ def choose(rng, s):
 
 def gen_script(rng):
     """Short exchange for the fault enumeration: calls, a pump, fires, a pump."""
-    labels = []
+    labels = [("arm-lostcall", side) for side in "ab" if rng.random() < 0.3]
     for _ in range(rng.randint(2, 5)):
-        mode = rng.choice([0, 0, 1, 1, 2, 6, 3, 4, 5, 7]) if rng.random() < 0.9 else rng.randrange(len(MODES))
+        mode = rng.choice([0, 0, 1, 8, 9, 10, 2, 6, 3, 4, 5, 7]) if rng.random() < 0.9 else rng.randrange(len(MODES))
         x = rng.random()
         ra = 0 if x < 0.1 else 2 if x < 0.3 else 1
         labels.append(("call", rng.choice("ab"), mode, ra, rng.choice([1, 1, 2, 3, 5]) if ra and rng.random() < 0.35 else 0))
@@ -664,6 +720,8 @@ def tally(ctx, s):
     del logged[:]
     ctx.count("responder_runs", sum(r["runs"] for r in s.responders.values()))
     ctx.count("deferred_responders_fired", sum(1 for r in s.responders.values() if "fired_after_lost" in r))
+    ctx.count("responder_deferred_called_but_chained", sum(1 for r in s.responders.values() if r.get("shape") == "called-but-chained" and "fired_after_lost" in r))
+    ctx.count("responder_deferred_fired_and_paused", sum(1 for r in s.responders.values() if r.get("shape") == "fired-and-paused" and "fired_after_lost" in r))
     ctx.count("quit_closes", sum(1 for n in ("a", "b") for box, _ in s.written_boxes[n] if box.get(b"_error_code") in (b"UNKNOWN", b"FATAL")))
 
 
@@ -683,6 +741,9 @@ def run_labels(ctx, labels, case, count=True):
 def random_session(ctx, i):
     rng = ctx.case_rng("session", i)
     s = Session(ctx)
+    for side in "ab":
+        if rng.random() < 0.25:
+            s.apply(("arm-lostcall", side))
     n = rng.randint(6, 40)
     after = rng.randint(1, 5)
     for _ in range(n):
